@@ -31,6 +31,9 @@ def main():
     checks = checks or meta.get('caught_by_candidates') or [meta['property']]
     patch = os.path.join(d, 'patch.diff')
     res = {'dir': d, 'property': meta['property']}
+    if skip and os.path.exists(os.path.join(d, 'result.json')):
+        old = json.load(open(os.path.join(d, 'result.json')))
+        res.update({k: v for k, v in old.items() if k.startswith(('demo_', 'suite_', 'apply_', 'confirmed'))})
     if not skip:
         os.makedirs('/tmp/seedcheck', exist_ok=True)
         wt = f'/tmp/seedcheck/wt-{os.getpid()}'
